@@ -424,6 +424,7 @@ class World:
         self.api_log = []  # dicts: t_call, t_done, host, op, args, result/exc
         self.on_callback = None
         self.net = SimNet(self, faults or FaultConfig())
+        self.loop.net = self.net
 
         def _count_postponed():
             fc = self.net.fault_counts
